@@ -458,7 +458,7 @@ def standard_proof_part(ctx, props_rel, allowed_axioms=(), extra_targets=(), tra
         if e is not None:
             broken.append(f"translator {k} failed (source construct not recognised): {e[-400:]}")
     vo = props_rel[:-2] + ".vo"
-    ok, log = coq_make([vo] + list(extra_targets), clean=(not ctx.quick and os.environ.get("VERIF_NOCLEAN") != "1"))
+    ok, log = coq_make([vo] + list(extra_targets), clean=(os.environ.get("VERIF_CLEAN") == "1"))
     if not ok:
         errs = re.findall(r"File \"([^\"]+)\", line (\d+).*?\n(Error:.*?)(?=\nmake|\nFile|\Z)", log, re.S)
         msg = "; ".join(f"{os.path.basename(f)}:{l}: {' '.join(e.split())[:300]}" for f, l, e in errs[:5]) or log[-1500:]
@@ -486,6 +486,21 @@ def standard_proof_part(ctx, props_rel, allowed_axioms=(), extra_targets=(), tra
         for t in thms:
             # which theorems still compile is not known when the file fails
             ctx.obligations.append((f"theorem {t}", False, "property file or its dependencies did not compile"))
+    if ok and not ctx.quick and os.environ.get("VERIF_NOCOQCHK") != "1":
+        # independent re-check of the compiled property file and everything it depends on
+        mod = "XD." + props_rel[:-2].replace("/", ".")
+        with open(os.path.join(CACHE, "coq.lock"), "w") as lk:
+            fcntl.flock(lk, fcntl.LOCK_SH)
+            r = subprocess.run(["timeout", "2400", "coqchk", "-silent", "-o", "-Q", COQ, "XD", mod],
+                               capture_output=True, text=True, cwd=COQ)
+        out = r.stdout + r.stderr
+        m = re.search(r"\* Axioms:(.*?)\n\s*\n\* Constants", out, re.S)
+        axs = " ".join((m.group(1) if m else "?").split())
+        good = r.returncode == 0 and axs == "<none>"
+        ctx.obligations.append((f"coqchk -o {mod}", good, f"axioms: {axs}" if r.returncode == 0 else out[-300:]))
+        ctx.cov["coqchk"] = {"module": mod, "rc": r.returncode, "axioms": axs}
+        if not good:
+            broken.append(f"coqchk on {mod}: rc={r.returncode} axioms={axs} {out[-200:] if r.returncode else ''}")
     ctx.broken = broken
     return not broken
 
